@@ -500,3 +500,14 @@ package route
 //@   nilrecv
 //@   acquires 95
 //@   locks C25
+
+//@ locklevel bgpPathACache.cacheMu 97
+//@ contract (*bgpPathACache).get
+//@   props C25
+//@   nosafety
+//@   acquires 97
+//@   locks C25
+//@ contract (*BGPPathA).Dedup
+//@   props C25
+//@   acquires 97
+//@   locks C25
